@@ -26,6 +26,8 @@ MUTANTS = [
      "        if node_name in self.comp_done:\n            return False\n        try:\n            return self.get_compstate(node_name).engine.isAlive()\n        except Exception:\n            return True\n"),
     ('c01-failed-producer-branch-dropped', 'C01', 'c01', 500, 'python/experiment/runtime/control.py',
      "                    if producers_failed:\n", "                    if False and producers_failed:\n"),
+    ('c01-fake-finished-subject-satisfies-observer-unfixed', 'C01', 'c01', 1200, 'python/experiment/runtime/control.py',
+     "                if comp not in self.comp_staged_in or comp.finishCalled:", "                if comp not in self.comp_staged_in:"),
     ('c02-aggregator-any-replica-shutdown', 'C02', 'c02', 700, 'python/experiment/runtime/control.py',
      "elif replica_inputs and len(shutdown_replicas) == len(replica_inputs):", "elif replica_inputs and len(shutdown_replicas) > 0:"),
     ('c02-two-final-states-unfixed', 'C02', 'c02', 300, 'python/experiment/runtime/workflow.py',
